@@ -45,23 +45,44 @@ def _mode_table(sh, m):
     return out
 
 
-def _keeps_on_failure(sh, body):
-    """classify an arm body: 'failure' if it keeps when is_failure, 'success' if it keeps when !is_failure"""
-    s = sh.nsrc(TF, body)
-    if s in ("is_failure",):
-        return "failure"
-    if s in ("is_success", "!is_failure"):
-        return "success"
-    # if is_failure { Status::Keep(value) } else { Status::Ignore }
+def _fail_names(sh, scope):
+    """(names bound to `<result>.failed(..)`, names bound to its negation) inside `scope`"""
+    fails, succ = set(), set()
+    for n in walk(scope):
+        if n["k"] == "Local" and n["pat"]["k"] == "Ident" and n.get("init") is not None:
+            init = n["init"]
+            if any(c["k"] == "MethodCall" and c["m"] == "failed" for c in walk(init)) and init["k"] != "Unary":
+                fails.add(n["pat"]["name"])
+    for n in walk(scope):
+        if n["k"] == "Local" and n["pat"]["k"] == "Ident" and n.get("init") is not None:
+            init = n["init"]
+            if init["k"] == "Unary" and init["op"] == "!" and init["e"]["k"] == "Path" and init["e"]["p"] in fails:
+                succ.add(n["pat"]["name"])
+    return fails, succ
+
+
+def _keeps_on_failure(sh, body, fails=("is_failure",), succ=("is_success",)):
+    """classify an arm body: 'failure' if it keeps when the run failed, 'success' if it keeps when it did not"""
+    def polarity(e):
+        if e["k"] == "Path" and e["p"] in fails:
+            return "failure"
+        if e["k"] == "Path" and e["p"] in succ:
+            return "success"
+        if e["k"] == "Unary" and e["op"] == "!":
+            p_ = polarity(e["e"])
+            return {"failure": "success", "success": "failure"}.get(p_)
+        return None
+    p0 = polarity(body)
+    if p0:
+        return p0
     for n in walk(body):
         if n["k"] == "If":
-            c = sh.nsrc(TF, n["cond"])
-            then_keep = "Status::Keep" in sh.nsrc(TF, n["then"]) or "Keep(" in sh.nsrc(TF, n["then"])
+            pc = polarity(n["cond"])
+            then_keep = "Keep(" in sh.nsrc(TF, n["then"])
             else_keep = "else" in n and ("Keep(" in sh.nsrc(TF, n["else"]))
-            if c == "is_failure":
-                return "failure" if then_keep and not else_keep else "success" if else_keep and not then_keep else None
-            if c in ("is_success", "!is_failure"):
-                return "success" if then_keep and not else_keep else "failure" if else_keep and not then_keep else None
+            if pc and then_keep != else_keep:
+                return pc if then_keep else {"failure": "success", "success": "failure"}[pc]
+            return None
     return None
 
 
@@ -77,7 +98,8 @@ def r_tables(sh, rep):
     if t1 is None or set(t1) != set(MODES):
         rep.bad("R16-TABLES", "first-keep#total", sh.loc(TF, first[0]), "the keep_counterexample table must list the three OnTestFailure modes explicitly (found %s)" % (sorted(t1) if t1 else "a catch-all"))
         return
-    k1 = {mode: _keeps_on_failure(sh, b) for mode, b in t1.items()}
+    fails, succ = _fail_names(sh, f["body"])
+    k1 = {mode: _keeps_on_failure(sh, b, fails, succ) for mode, b in t1.items()}
     # specification (semantics of `fail` tests): a counterexample is a failing run, except for `fail` (SucceedEventually) where it is a passing run
     spec = {"FailImmediately": "failure", "SucceedImmediately": "failure", "SucceedEventually": "success"}
     for mode in MODES:
@@ -89,7 +111,7 @@ def r_tables(sh, rep):
     if t2 is None or set(t2) != set(MODES):
         rep.bad("R16-TABLES", "replay-cache#total", sh.loc(TF, cache[0]), "the replay table must list the three modes explicitly")
         return
-    k2 = {mode: _keeps_on_failure(sh, b) for mode, b in t2.items()}
+    k2 = {mode: _keeps_on_failure(sh, b, fails, succ) for mode, b in t2.items()}
     for mode in MODES:
         rep.check(k2[mode] == k1[mode] and k2[mode] is not None, "R16-TABLES", "replay-cache#%s#agrees-with-first-keep" % mode, sh.loc(TF, cache[0]), "for %s the first run is kept on %s but a replay is kept on %s: the shrinker then moves towards values that are not counterexamples for this test" % (mode, k1[mode], k2[mode]), sample={"first": k1[mode], "replay": k2[mode]})
 
